@@ -42,7 +42,7 @@ for p in props:
         M['checks'].append({"property_id": i, "quick_cmd": f"./check {i} --tier quick", "thorough_cmd": f"./check {i} --tier thorough",
           "evidence_file": f"evidence/{i}.json", "replay_cmd_template": f"./check {i} --replay {{path}}", "engine": "symx",
           "level_claimed": {"category": "other", "text": "bounded symbolic execution of the real lentil source + SMT (z3): " + CLAIMS[i] + "; sat models are replayed on the real code before a violation is reported", "design_ref": f"DESIGN.md section 4 {i}"},
-          "level_note": "reals stand in for floats; bounds on array sizes/option sets as stated in the evidence file; numpy modelled by a shim validated against the real numpy on every run; roots of unity / sqrt / rounding as atoms with stated axioms",
+          "level_note": "reals stand in for floats; bounds on array sizes/option sets as stated in the evidence file; numpy modelled by a shim validated against the real numpy on every run; roots of unity / sqrt / rounding as atoms with stated axioms; a few obligations that rest on numpy dtype arithmetic, scipy optimisers or array sizes outside the exact trigonometry are evaluated on the real code at sampled points only and are named concrete-only in the harness and the evidence",
           "technique": "solver-based bounded checking: symbolic execution of the real Python source (ring normal form + z3 for branches, rounding, roots of unity, obligations), counterexample replay on the real code"})
     else:
         M['not_applicable'].append({"property_id": i, "reason": NA.get(i, "check not built yet in this revision (work in progress; see DESIGN.md)")})
